@@ -7,7 +7,7 @@ RELATED = {"C06-2": ["C11"], "C03-2": ["C12"], "C12-2": ["C11"], "C07-2": ["C01"
 
 
 def sh(cmd, cwd="/verif", timeout=3600):
-    p = subprocess.run(cmd, cwd=cwd, shell=True, stdout=subprocess.PIPE, stderr=subprocess.STDOUT, text=True, timeout=timeout)
+    p = subprocess.run(cmd, cwd=cwd, shell=True, stdout=subprocess.PIPE, stderr=subprocess.STDOUT, text=True, errors="replace", timeout=timeout)
     return p.returncode, p.stdout
 
 
